@@ -61,13 +61,13 @@ CHECKS = {
     ),
     "C01": dict(
         modules=["AggkitModel.Properties.C01"],
-        scenarios=[dict(name="tree"), dict(name="bridgestore")],
+        scenarios=[dict(name="tree"), dict(name="bridgestore"), dict(name="evmbridge")],
         generated=[],
         leanchecker=True,
         level_text="Proved in Lean 4 (any height, any hash algebra, H.Inj): C01_root — after ANY well-formed history (blocks committed or rolled back at any point, restarts, reorgs) the root reported "
                    "for deposit count i equals DC.getRoot after i+1 deposits, DC being the deposit contract's incremental tree (_addLeaf/getRoot modelled from the published algorithm; contract_root proves it equals the "
                    "spec root for all counts and carry patterns); C01_partition_irrelevant — the reported roots depend only on the surviving deposits. Tie: real tree package vs compiled model vs the "
-                   "contract algorithm in Go, incl. fabricated pre-states at every 2^k boundary up to 2^32-2.",
+                   "contract algorithm in Go, incl. fabricated pre-states at every 2^k boundary up to 2^32-2. Oracle = the REAL contract (scenario evmbridge): PolygonZkEVMBridgeV2 bytecode behind a proxy in go-ethereum's simulated EVM takes native-asset bridges and messages (several per block); its logs go through the syncer's own log handlers into the real processor; per deposit the contract's getLeafValue / getRoot(), the node's leaf / GetExitRootByIndex and the Lean deposit-contract model over the Lean Keccak must agree.",
         level_note="Trusted: Lean kernel; H.Inj; model/code correspondence (generator-bounded); the Solidity contract is modelled by hand (DC) and cross-checked against an independent Go port, not against bytecode. "
                    "The leaf-value half (Bridge.Hash = getLeafValue) is decided by the bridge-store correspondence/monitor, not by a theorem.",
         rule="same worlds as C08; every committed deposit's root compared with the contract algorithm; distinct non-trivial = distinct (root, position) pairs",
